@@ -31,6 +31,11 @@ func checkC06(r *core.Run) {
 	} else {
 		r.Fail("R-C06-commit", "batches/anchor", "-", "the function that applies a block's changes to the unspent set was not found")
 	}
+	if ct := p.Func("lib/chain.(*Chain).commitTxs"); ct != nil {
+		// a branch is only taken over if its blocks are valid: no transaction's scripts are skipped on the
+		// strength of another transaction's "already verified" answer
+		c04TrustPerTx(r, p, ct, "R-C06-order")
+	}
 	// tie
 	mp := p.Func("lib/chain.(*BlockTreeNode).MorePOW")
 	okStrict := false
